@@ -6,3 +6,5 @@ import GontainerModel.Props.C13
 #print axioms GM.C13.meta_defaults
 #print axioms GM.C13.default_type
 #print axioms GM.C13.reserved_is_container_api
+#print axioms GM.C13.template_method_forms
+#print axioms GM.C13.methods_never_collide
